@@ -290,6 +290,23 @@ func (w *World) sweepsFor(prop string, cfg *RunCfg) []workItem {
 			}})
 		}
 	}
+	// invariant sweep: a type invariant scoped to this property is only as good as the set of
+	// functions checked against it - every module function that builds a value of such a type is
+	// verified under the property, whether or not its own contract names it
+	for _, fn := range w.scopedInvariantConstructors(prop) {
+		if c := w.Contracts[fn]; c != nil && (contractMentions(c, prop) || c.Trusted != "" || c.NoBody) {
+			continue
+		}
+		dup := false
+		for _, it := range items {
+			if it.fn == fn {
+				dup = true
+			}
+		}
+		if !dup {
+			items = append(items, workItem{fn: fn, why: "constructor of a type with a " + prop + " invariant", opts: VerifyOpts{Props: map[string]bool{prop: true}, Safety: false, ExtraRequires: ifaceParamsNonNil}})
+		}
+	}
 	return items
 }
 
@@ -562,6 +579,61 @@ func (w *World) redactableConvFuncs() []*ssa.Function {
 				if ct, ok := ins.(*ssa.ChangeType); ok {
 					tn := ct.Type().String()
 					if (strings.HasSuffix(tn, "redact.RedactableString") || strings.HasSuffix(tn, "redact.RedactableBytes")) && ct.X.Type().String() != tn {
+						has = true
+					}
+				}
+			}
+		}
+		if has {
+			out = append(out, fn)
+		}
+	}
+	sort.Slice(out, func(i, j int) bool { return out[i].String() < out[j].String() })
+	return out
+}
+
+// scopedInvariantConstructors: functions of the module (non-test packages) that allocate a struct
+// whose type carries an invariant scoped to prop.
+func (w *World) scopedInvariantConstructors(prop string) []*ssa.Function {
+	scoped := map[string]bool{}
+	for tn, tis := range w.TypeInvs {
+		for _, ti := range tis {
+			for _, p := range ti.Props {
+				if p == prop {
+					scoped[tn] = true
+				}
+			}
+		}
+	}
+	if len(scoped) == 0 {
+		return nil
+	}
+	var out []*ssa.Function
+	for fn := range w.AllFuncs {
+		pkg := fn.Pkg
+		if pkg == nil && fn.Parent() != nil {
+			pkg = fn.Parent().Pkg
+		}
+		if pkg == nil || !w.InModule(pkg.Pkg) || w.isGenerated(fn) || len(fn.Blocks) == 0 || fn.Synthetic != "" {
+			continue
+		}
+		p := pkg.Pkg.Path()
+		if strings.Contains(p, "testutils") || strings.Contains(p, "fmttests") {
+			continue
+		}
+		if pos := w.Fset.Position(fn.Pos()); strings.HasSuffix(pos.Filename, "_test.go") || pos.Filename == "" {
+			continue
+		}
+		// package initialisation (init functions and the registration helpers they call) builds
+		// zero values only to compute type keys; it is outside the sweep
+		if fn.Name() == "init" || strings.HasPrefix(fn.Name(), "init#") || strings.HasPrefix(fn.Name(), "register") {
+			continue
+		}
+		has := false
+		for _, b := range fn.Blocks {
+			for _, ins := range b.Instrs {
+				if a, ok := ins.(*ssa.Alloc); ok {
+					if pt, ok := a.Type().Underlying().(*types.Pointer); ok && scoped[pt.Elem().String()] {
 						has = true
 					}
 				}
